@@ -574,3 +574,8 @@ Fixpoint wf_node (sch : schema) (n : dnode) {struct n} : bool :=
 
 Definition wfb (sch : schema) (f : forest) : bool :=
   forallb (fun c => negb (is_key sch (d_sid c))) f && sibs_okb sch f && forallb (wf_node sch) f.
+
+(* no node carries the default flag (hypothesis of the partial theorem about diffs computed without the defaults option) *)
+Fixpoint nodflt_node (n : dnode) {struct n} : bool :=
+  match n with DN _ _ d _ ch => negb d && forallb nodflt_node ch end.
+Definition nodfltb (f : forest) : bool := forallb nodflt_node f.
